@@ -26,6 +26,8 @@ VARIANTS = {
                 ["-fsanitize=address,undefined", "-shared-libsan"], None),
     "tsan":    ("clang", ["-O1", "-g", "-fsanitize=thread", "-fno-strict-aliasing", "-w"],
                 ["-fsanitize=thread"], None),
+    # what a default ./configure of the repository produces: optimised, fortified, with its hardening flags
+    "dist":    ("gcc",   ["-O2", "-g", "-D_FORTIFY_SOURCE=2"] + REPO_WARN, [], None),
     "O2":      ("gcc",   ["-O2", "-g", "-w", "-fno-strict-aliasing"], [], None),
     "O3":      ("gcc",   ["-O3", "-g", "-w", "-fno-strict-aliasing"], [], None),
     "O1":      ("gcc",   ["-O1", "-g", "-w", "-fno-strict-aliasing"], [], None),
